@@ -509,6 +509,9 @@ def parse (w : Wire) (bs : Bytes) : Option SMsg :=
   | none => none
   | some (vs, r) => (parseOpts w.opt r.length r).map fun os => ⟨vs, os⟩
 
+/-- no "rest of the message" element (only 8.2.28 has one) -/
+def noRest (w : Wire) : Bool := w.mand.all fun | .vRest _ => false | _ => true
+
 /-- value-length bounds of the table (what a receiver may treat as "syntactically incorrect") -/
 def valLenOK (w : OWire) (n : Nat) : Bool :=
   w.minVal ≤ n && (match w.maxVal with | some mx => n ≤ mx | none => true)
